@@ -240,3 +240,18 @@ reply included): every earlier way out of a fetch is an exception -/
 def Fetch.Settled (f : Fetch) : Prop := f.exit = .normal → f.replies.length ≤ f.read
 
 end Wpull.Ftp
+
+namespace Wpull.Ftp
+
+/-! ## The address of a PASV reply -/
+
+/-- `wpull.protocol.ftp.util.parse_address` after the regular expression has found six groups of one to three
+digits: numbers above 255 are no address (`ValueError`, which the commander turns into a protocol error);
+otherwise the dotted host and the port `p1 * 256 + p2` -/
+def parseAddress : List Nat → Except PyExc (List Nat × Nat)
+  | [h1, h2, h3, h4, p1, p2] =>
+    if [h1, h2, h3, h4, p1, p2].any (· > 255) then .error .ValueError
+    else .ok ([h1, h2, h3, h4], p1 <<< 8 ||| p2)
+  | _ => .error .ValueError
+
+end Wpull.Ftp
